@@ -67,6 +67,12 @@ def _work(job):
 
     def interfere(b, k):
         om = others[k % len(others)]
+        # calls the function refuses or may refuse (rule 4): an unknown category, junk dates, birth after the competition
+        for a in ((b, om, 'NOSUCH'), ('not a date', om, cat), (b, 'not a date', cat), (om, b, cat), (None, om, cat)):
+            try:
+                fn(a[0], a[1], a[2])
+            except Exception:
+                pass
         for c2 in ('TF', 'XC', 'ROAD'):
             label(fn, b, om, c2, True, False, False)
         label(fn, b, others[(k + 3) % len(others)], cat, False, True, k % 2 == 0)
